@@ -617,6 +617,12 @@ func (w *runWorld) drawToken() int32 {
 	if w.cfg.images > 0 && verifsim.Draw("img", 8) == 0 {
 		return int32(-(1 + verifsim.Draw("imgid", w.cfg.images)))
 	}
+	if w.cfg.images > 0 && verifsim.Draw("tok0", 8) == 0 {
+		// token id 0 is an ordinary token of real vocabularies ("!" or <unk>), and it is
+		// also what the token field of an image-embedding input holds
+		verifsim.Probe("token_zero_in_prompt")
+		return 0
+	}
 	return int32(1 + verifsim.Draw("tok", n))
 }
 
